@@ -5,6 +5,7 @@
 -/
 import Rpki.Props.C01
 import Rpki.Model.SigObj
+import Rpki.Proofs.SigObjAttrs
 namespace Rpki.Props.C02
 set_option autoImplicit false
 open Rpki.Chain Rpki.Cert Rpki.SigObj Rpki.Der
@@ -188,6 +189,42 @@ theorem roa_within_issuer (digest : Bytes → Bytes) (o : Obj) (v4 v6 : List Roa
   obtain ⟨_, _, _, _, _, _, _, hee⟩ := (validateAt_iff digest o i now cert).1 hv
   have hs := (C01.validated_subset o.ee i cert now hf hi (Or.inr hee)).2
   exact ⟨fun a ha x h1 h2 => hs.1 x (c4 a ha x h1 h2), fun a ha x h1 h2 => hs.2.1 x (c6 a ha x h1 h2)⟩
+
+
+/-! ### signed attributes: exactly one of each, in any order -/
+
+/-- **Attribute order.** The three required attributes are accepted in every one of their six
+orders, with the same result (strict and relaxed mode), as long as the parser's own 16-bit size
+condition holds. -/
+theorem attrs_any_order (strict : Bool) (ct md tc : Bytes) (tag : X509.TimeTag) (st : X509.Civil)
+    (hct : oidOk ct = true) (ht : X509.decodeTime tag tc = some st) (l : List Bytes)
+    (hperm : l.Perm [attr oidContentType (tlv tagOid ct), attr oidMessageDigest (tlv tagOctetString md),
+                     attr oidSigningTime (tlv (timeOctet tag) tc)])
+    (hlen : l.flatten.length ≤ 0xFFFF) :
+    parseAttrs strict l.flatten = some (ct, md, st) :=
+  parseAttrs_any_order_of_length strict ct md tc tag st hct ht l hperm hlen
+
+/-- Leaving out any one of the three is rejected. -/
+theorem attrs_missing_rejected (strict : Bool) (ct md tc : Bytes) (tag : X509.TimeTag) (i : Fin 3)
+    (l : List Bytes)
+    (hperm : l.Perm ([attr oidContentType (tlv tagOid ct), attr oidMessageDigest (tlv tagOctetString md),
+                      attr oidSigningTime (tlv (timeOctet tag) tc)].eraseIdx i)) :
+    parseAttrs strict l.flatten = none :=
+  parseAttrs_missing strict ct md tc tag i l hperm
+
+/-- A second occurrence of content-type, message-digest or signing-time anywhere in the set is
+rejected, whatever surrounds it. -/
+theorem attrs_duplicate_rejected (strict : Bool) (k : Kind) (pre mid : List Bytes) (v1 v2 post : Bytes)
+    (hpre : ∀ b ∈ pre, b.length < 2 ^ 32) (hmid : ∀ b ∈ mid, b.length < 2 ^ 32)
+    (h1 : v1.length < 2 ^ 30) (h2 : v2.length < 2 ^ 30) :
+    parseAttrs strict ((pre.map (tlv tagSeq)).flatten ++ attr k.oid v1 ++
+       (mid.map (tlv tagSeq)).flatten ++ attr k.oid v2 ++ post) = none :=
+  parseAttrs_duplicate_attr strict k pre mid v1 v2 post hpre hmid h1 h2
+
+/-- Attribute sets above 65535 octets are rejected at decoding time, so `encode_verify` never
+reaches its `panic!`. -/
+theorem attrs_too_long_rejected (strict : Bool) (attrs : Bytes) (h : attrs.length > 0xFFFF) :
+    parseAttrs strict attrs = none := parseAttrs_too_long strict attrs h
 
 /-- the 128-octet boundary: with the original length bytes (`31 02 00 80 …`) a correct signature
 over the DER SET OF (`31 81 80 …`) could not verify; this instance is decided by evaluation -/
